@@ -99,6 +99,7 @@ package node
 //@   requires[sel] 0 <= srcsel && srcsel <= 2
 //@   requires[ast] wfAST(self)
 //@   requires[cr]  crOK(cr)
+//@   requires[flags] !(fl.Data().Discard && fl.Data().Returning)   // a result is either dropped or returned, never both
 //@   requires[stmt_depth] !isExpr(self) ==> fl.Data().OpDepth == 0   // statements (and builtin bodies) are compiled at operator depth 0
 //@   modifies *cr.CS, allelems(*cr.CS), *cr.DS, allelems(*cr.DS), mapof(*cr.Dbg)
 //@   ensures[K2_code]  csKept(cr) && csNewWF(cr)
